@@ -138,3 +138,37 @@ Proof.
   cbv zeta. split; [split; [left; reflexivity | reflexivity]|]. split; [|split; vm_compute; reflexivity].
   repeat constructor; vm_compute; reflexivity.
 Qed.
+
+(* HELPER BLOCKS THAT RELY ON THE DEFAULT MODE.  Read off the source on every run: the default of fetch_active_workspace's
+   `mode` parameter and every `fetch_active_workspace(...)` block inside the library with its literal mode.  The helpers the
+   property names ("loading a ui.json" = the InputFile.data setter, "exporting a copy to a monitoring directory") resolve to
+   mode "r", whether they pass it or rely on the default ... *)
+Definition resolve_mode (m : rmode) : rmode := match m with MDefault => fetch_active_default | x => x end.
+Definition helper_requests_r (x : string * string * N * rmode) : bool :=
+  let '(encl, _, _, m) := x in
+  negb (mem_str encl helper_blocks) || match resolve_mode m with MR => true | _ => false end.
+
+Theorem C10_helper_blocks_request_readonly :
+  forallb helper_requests_r T_fetch_active_calls = true
+  /\ forallb (fun h => existsb (fun x => let '(encl, _, _, _) := x in String.eqb encl h) T_fetch_active_calls) helper_blocks = true.
+Proof. split; vm_compute; reflexivity. Qed.
+Print Assumptions C10_helper_blocks_request_readonly.
+
+(* ... and such a block (fetch_active_workspace with mode "r" around gated calls) on a CLOSED workspace built with ANY mode
+   — in particular the default "r+", the case where a writable re-open would go unnoticed — opens it "r", leaves the file
+   unchanged and closes it again; on an open workspace it performs the body on the handle as it is. *)
+Definition strict_req (m : rmode) : option mode :=
+  match m with MR => Some R | MRW => Some RW | MA => Some A | _ => None end.
+
+Theorem C10_default_block_readonly : forall body w,
+  handle_of w = Closed -> forallb (call_in_table T_iocalls) body = true ->
+  exists m, strict_req (resolve_mode MDefault) = Some m
+  /\ handle_of (fst (open_ (Some m) w)) = Open R
+  /\ file (fst (step w (FetchActive m body))) = file w
+  /\ handle_of (fst (step w (FetchActive m body))) = Closed.
+Proof.
+  intros body w H FT. exists R. split; [reflexivity|].
+  change (step w (FetchActive R body)) with (step w (MonitoredCopy body)).
+  destruct C10_helpers_readonly as [_ [HM _]]. exact (HM body w H FT).
+Qed.
+Print Assumptions C10_default_block_readonly.
